@@ -5,6 +5,11 @@ NOT_YET = {}
 COMMON_NOTE = ("Trusted: Lean kernel + the three standard axioms (audited per theorem each run); the model is tied to the code only as far as the "
                "differential streams exercise it (counts in the evidence file); harness/generators/canonicalisation; crypto primitives are parameters/hypotheses, not verified.")
 META = {
+    "C01": {
+        "text": "Theorem C01_accept_sound: for every crypto instantiation, group size/membership, bitmap and message, the model of VerifyProposal returns ok only if the message names the current proposer/sequence/epoch, every marked bitmap position denotes a current voter, the aggregate signature verifies over the sign-doc of exactly this method, payload, chain, epoch and sequence under the proposer key followed by exactly the marked voters' keys, and 1+marks >= ceil(2(n+1)/3); the five *_needs_quorum theorems show each voted bridge handler succeeds only through that check on its own method and payload encoding. Tied to the real keepers (real relayer keeper under the real bridge handlers, real BLS) by the relayer stream with 26 guard-directed vote classes (marks beyond the voter list, signer/marks mismatch, wrong seq/epoch/method/chain/payload, odd bitmap lengths...).",
+        "note": COMMON_NOTE + " BLS verification is an oracle parameter; the driver's oracle is fed by the harness with who really signed what.",
+        "technique": "Lean 4 theorem (soundness characterisation of VerifyProposal + handler lemmas) + differential correspondence on the real relayer/bitcoin keepers with real BLS",
+    },
     "C04": {
         "text": "Theorem C04_exact: for every hash function and every (leaf, root, path, 32-bit position) the model of VerifyMerkelProof accepts iff sizes are well-formed, the fold reproduces the root and position < 2^(path length); C04_position_binding: under collision resistance (hypothesis) an accepted leaf is the tree's leaf at that position. The Go function is tied to the model by differential runs over reference trees (genuine/aliased/truncated/extended/permuted/bit-flipped/malformed) with real double-SHA256 on both sides and an independent Python monitor.",
         "note": COMMON_NOTE + " Position binding assumes collision resistance as an explicit hypothesis.",
